@@ -129,7 +129,9 @@ pub fn run(case: &Value, em: &mut Emitter) {
 
 const SRC: &[&str] = &["a", "", "/abs/x", "http://h/y", "https://h/z", "b/c.js", "a", "httpx", "ü", "d", "e", "/", "f//", "g", "http:"];
 const ROOT: &[&str] = &["", "r", "r/", "r//", "/", "//", "http://cdn/", "x", "x/", "x//", "./rel", "webpack://", "webpack:///"];
-const NAMES: &[&str] = &["n", "", "m", "n", "𝒳", "k", "\"q\""];
+// (the last two are distinct strings with the same 64-bit FxHash, the hash the crate's tables use: a pair found by a
+// sub-agent's collision search in round 5 -- a table keyed by the hash instead of the string confuses them)
+const NAMES: &[&str] = &["n", "", "m", "n", "𝒳", "k", "\"q\"", "handleResponseOk", "handttdozponsnqn"];
 
 /// extension E06: C13's histories with builder-side renames (set_source, strip_prefixes) and add_token mixed in
 pub fn gen_e06(rng: &mut Rng, size: usize) -> Value {
